@@ -3,6 +3,8 @@ import Lemmas.StrSpecs
 import Lemmas.Util
 import Lemmas.Strip
 import Lemmas.Unicode
+import Lemmas.RegexGroups
+import Spec.NumDB
 /-!
 # Lemmas.Extra — further `@[spec]` triples and small facts used by the contract automation (`Lemmas.Vc`)
 
@@ -243,5 +245,235 @@ theorem getItemL_ok2 {α : Type} (s : List α) (i : Int) (h : -(s.length : Int) 
   apply triple_of_Ok
   obtain ⟨c, hc, hm, hi⟩ := getItemL_ok2 s i h
   exact ⟨[c], by simp [getItem, hc], c, hm, rfl, hi⟩
+
+end Py
+
+namespace Py
+
+/-! ## registry lookups -/
+
+/-- `numdb.info(n)` / `numdb.split(n)` of a non-empty number has at least one part -/
+theorem numdb_info_length_pos (db : List Spec.NumDB.Entry) {n : Str} (h : n ≠ []) :
+    0 < (Spec.NumDB.info db n).length := by
+  unfold Spec.NumDB.info Spec.NumDB.find
+  rw [Spec.NumDB.findAux]
+  simp [h]
+
+theorem numdb_split_length_pos (db : List Spec.NumDB.Entry) {n : Str} (h : n ≠ []) :
+    0 < (Spec.NumDB.split db n).length := by
+  unfold Spec.NumDB.split
+  rw [List.length_map]
+  exact numdb_info_length_pos db h
+
+end Py
+
+namespace Py
+
+/-! ## partial-correctness specs (no preconditions, any exception): used by the families whose exceptional
+post-condition is `True` (C15a, C02f …); they are NOT `@[spec]`, the generated scripts pass them to `mvcgen`
+explicitly and erase the safety specs (`mvcgen [-Py.intOf_spec, Py.intOf_pc, …]`) -/
+
+theorem pc_triple {α : Type} {x : R α} {Q : α → Prop} (h : ∀ v, x = .ok v → Q v) :
+    ⦃⌜True⌝⦄ x ⦃post⟨fun v => ⌜Q v⌝, fun _ => ⌜True⌝⟩⦄ :=
+  triple_of_holds x _ _ (by
+    unfold Holds
+    cases hx : x with
+    | ok v => exact h v hx
+    | error e => trivial)
+
+theorem intOf_pc (s : Str) : ⦃⌜True⌝⦄ intOf s ⦃post⟨fun _ => ⌜s ≠ []⌝, fun _ => ⌜True⌝⟩⦄ :=
+  pc_triple (fun v h => intOf_ok_ne_nil s v h)
+
+theorem intOfBase_pc (s : Str) (b : Nat) : ⦃⌜True⌝⦄ intOfBase s b ⦃post⟨fun _ => ⌜s ≠ []⌝, fun _ => ⌜True⌝⟩⦄ :=
+  pc_triple (fun v h => intOfBase_ok_ne_nil s b v h)
+
+theorem getItem_pc (s : Str) (i : Int) :
+    ⦃⌜True⌝⦄ getItem s i
+    ⦃post⟨fun r => ⌜∃ c, c ∈ s ∧ r = [c] ∧ s[pyIdx s.length i]? = some c⌝, fun _ => ⌜True⌝⟩⦄ :=
+  pc_triple (fun r h => by
+    have hb : -(s.length : Int) ≤ i ∧ i < s.length := by
+      obtain ⟨c, hc⟩ : ∃ c, getItemL s i = .ok c := by
+        rw [getItem_eq] at h
+        cases h' : getItemL s i with
+        | error e => rw [h'] at h; cases h
+        | ok c => exact ⟨c, rfl⟩
+      exact (getItemL_ok_iff s i).mp ⟨c, hc⟩
+    obtain ⟨r', hr', hq⟩ := Ok_of_triple (getItem_spec2 s i hb)
+    rw [h] at hr'; cases hr'; exact hq)
+
+theorem getItemL_pc {α : Type} (s : List α) (i : Int) :
+    ⦃⌜True⌝⦄ getItemL s i ⦃post⟨fun r => ⌜r ∈ s ∧ s[pyIdx s.length i]? = some r⌝, fun _ => ⌜True⌝⟩⦄ :=
+  pc_triple (fun r h => by
+    have hb : -(s.length : Int) ≤ i ∧ i < s.length := by
+      exact (getItemL_ok_iff s i).mp ⟨r, h⟩
+    obtain ⟨r', hr', hq⟩ := getItemL_ok2 s i hb
+    rw [h] at hr'; cases hr'; exact hq)
+
+theorem index_pc (x sub : Str) :
+    ⦃⌜True⌝⦄ index x sub ⦃post⟨fun i => ⌜strIn sub x = true ∧ 0 ≤ i ∧ i + sub.length ≤ x.length⌝, fun _ => ⌜True⌝⟩⦄ :=
+  pc_triple (fun i h => by obtain ⟨h1, h2, h3, _⟩ := index_ok h; exact ⟨h1, h2, h3⟩)
+
+theorem indexL_pc {α : Type} [BEq α] (l : List α) (v : α) :
+    ⦃⌜True⌝⦄ indexL l v ⦃post⟨fun _ => ⌜True⌝, fun _ => ⌜True⌝⟩⦄ := any_triple' _
+  where any_triple' {β : Type} (x : R β) : ⦃⌜True⌝⦄ x ⦃post⟨fun _ => ⌜True⌝, fun _ => ⌜True⌝⟩⦄ :=
+    triple_of_holds x _ _ (by unfold Holds; cases x <;> trivial)
+
+theorem any_pc {α : Type} (x : R α) : ⦃⌜True⌝⦄ x ⦃post⟨fun _ => ⌜True⌝, fun _ => ⌜True⌝⟩⦄ :=
+  triple_of_holds x _ _ (by unfold Holds; cases x <;> trivial)
+
+theorem dictGet_pc {κ ν : Type} [BEq κ] [LawfulBEq κ] (d : List (κ × ν)) (k : κ) :
+    ⦃⌜True⌝⦄ dictGet d k ⦃post⟨fun v => ⌜(k, v) ∈ d⌝, fun _ => ⌜True⌝⟩⦄ :=
+  pc_triple (fun _ h => dictGet_ok_mem h)
+
+theorem optGet_pc {α : Type} (o : Option α) :
+    ⦃⌜True⌝⦄ optGet o ⦃post⟨fun r => ⌜o = some r⌝, fun _ => ⌜True⌝⟩⦄ :=
+  pc_triple (fun r h => by cases o with
+    | none => cases h
+    | some v => cases h; rfl)
+
+theorem optGetT_pc {α : Type} (o : Option α) :
+    ⦃⌜True⌝⦄ optGetT o ⦃post⟨fun r => ⌜o = some r⌝, fun _ => ⌜True⌝⟩⦄ :=
+  pc_triple (fun r h => by cases o with
+    | none => cases h
+    | some v => cases h; rfl)
+
+theorem pymod_pc (a b : Int) : ⦃⌜True⌝⦄ pymod a b ⦃post⟨fun r => ⌜r = Int.fmod a b⌝, fun _ => ⌜True⌝⟩⦄ :=
+  pc_triple (fun r h => by unfold pymod at h; split at h <;> cases h; rfl)
+
+theorem pyfloordiv_pc (a b : Int) : ⦃⌜True⌝⦄ pyfloordiv a b ⦃post⟨fun r => ⌜r = Int.fdiv a b⌝, fun _ => ⌜True⌝⟩⦄ :=
+  pc_triple (fun r h => by unfold pyfloordiv at h; split at h <;> cases h; rfl)
+
+theorem pydivmod_pc (a b : Int) :
+    ⦃⌜True⌝⦄ pydivmod a b ⦃post⟨fun r => ⌜r = (Int.fdiv a b, Int.fmod a b)⌝, fun _ => ⌜True⌝⟩⦄ :=
+  pc_triple (fun r h => by unfold pydivmod at h; split at h <;> cases h; rfl)
+
+theorem mkDate_pc (y m d : Int) :
+    ⦃⌜True⌝⦄ mkDate y m d ⦃post⟨fun r => ⌜r = ⟨y, m, d⟩ ∧ r.Valid⌝, fun _ => ⌜True⌝⟩⦄ :=
+  pc_triple (fun r h => by
+    obtain ⟨h1, h2, h3, h4⟩ := mkDate_valid h
+    refine ⟨?_, h1⟩
+    cases r; simp_all)
+
+theorem monthrangeDays_pc (y m : Int) :
+    ⦃⌜True⌝⦄ monthrangeDays y m ⦃post⟨fun r => ⌜28 ≤ r ∧ r ≤ 31⌝, fun _ => ⌜True⌝⟩⦄ :=
+  pc_triple (fun r h => by
+    unfold monthrangeDays at h
+    split at h
+    · cases h; exact daysInMonth_bounds y m
+    · cases h)
+
+theorem ord_pc (s : Str) : ⦃⌜True⌝⦄ ord s ⦃post⟨fun r => ⌜s = [r.toNat] ∧ 0 ≤ r⌝, fun _ => ⌜True⌝⟩⦄ :=
+  pc_triple (fun r h => by
+    match s, h with
+    | [c], h => cases h; exact ⟨by simp, by omega⟩)
+
+theorem chr_pc (n : Int) : ⦃⌜True⌝⦄ chr n ⦃post⟨fun r => ⌜r = [n.toNat]⌝, fun _ => ⌜True⌝⟩⦄ :=
+  pc_triple (fun r h => by unfold chr at h; split at h <;> cases h; rfl)
+
+theorem asciiOnly_pc (s : Str) :
+    ⦃⌜True⌝⦄ asciiOnly s ⦃post⟨fun r => ⌜r = s ∧ AllIn isAscii s⌝, fun _ => ⌜True⌝⟩⦄ := by
+  have := asciiOnly_spec s
+  refine pc_triple (fun r h => ?_)
+  have h2 := holds_of_triple _ _ _ this
+  rw [h] at h2
+  exact h2
+
+/-- `mapM`: the body is verified under the same (trivial) exception post-condition -/
+theorem mapM_pc {α β : Type} (f : α → R β) (l : List α) :
+    ⦃⌜True⌝⦄ l.mapM f ⦃post⟨fun rs => ⌜rs.length = l.length⌝, fun _ => ⌜True⌝⟩⦄ :=
+  pc_triple (fun rs h => by
+    induction l generalizing rs with
+    | nil => simp [List.mapM_nil, pure, Except.pure] at h; subst h; rfl
+    | cons a t ih =>
+      rw [List.mapM_cons] at h
+      cases ha : f a with
+      | error e => simp [ha, bind, Except.bind] at h
+      | ok b =>
+        cases ht : t.mapM f with
+        | error e => simp [ha, ht, bind, Except.bind] at h
+        | ok bs =>
+          simp [ha, ht, bind, Except.bind, pure, Except.pure] at h
+          subst h
+          simp [ih bs ht])
+
+theorem filterMapM_pc {α β : Type} (f : α → R (Option β)) (l : List α) :
+    ⦃⌜True⌝⦄ l.filterMapM f ⦃post⟨fun _ => ⌜True⌝, fun _ => ⌜True⌝⟩⦄ := any_pc _
+
+end Py
+
+namespace Py
+
+theorem maxInt_pc (l : List Int) : ⦃⌜True⌝⦄ maxInt l ⦃post⟨fun m => ⌜m ∈ l⌝, fun _ => ⌜True⌝⟩⦄ :=
+  pc_triple (fun m h => by
+    cases l with
+    | nil => cases h
+    | cons a t =>
+      obtain ⟨m', hm', h1, _⟩ := maxInt_ok (l := a :: t) (by simp)
+      rw [h] at hm'; cases hm'; exact h1)
+
+theorem minInt_pc (l : List Int) : ⦃⌜True⌝⦄ minInt l ⦃post⟨fun m => ⌜m ∈ l⌝, fun _ => ⌜True⌝⟩⦄ :=
+  pc_triple (fun m h => by
+    cases l with
+    | nil => cases h
+    | cons a t =>
+      obtain ⟨m', hm', h1, _⟩ := minInt_ok (l := a :: t) (by simp)
+      rw [h] at hm'; cases hm'; exact h1)
+
+theorem pypow_pc (a b : Int) : ⦃⌜True⌝⦄ pypow a b ⦃post⟨fun _ => ⌜True⌝, fun _ => ⌜True⌝⟩⦄ := any_pc _
+theorem pypowmod_pc (a b m : Int) : ⦃⌜True⌝⦄ pypowmod a b m ⦃post⟨fun _ => ⌜True⌝, fun _ => ⌜True⌝⟩⦄ := any_pc _
+theorem pyshl_pc (a b : Int) : ⦃⌜True⌝⦄ pyshl a b ⦃post⟨fun _ => ⌜True⌝, fun _ => ⌜True⌝⟩⦄ := any_pc _
+theorem pyshr_pc (a b : Int) : ⦃⌜True⌝⦄ pyshr a b ⦃post⟨fun _ => ⌜True⌝, fun _ => ⌜True⌝⟩⦄ := any_pc _
+
+theorem splitOnR_pc (x sep : Str) (m : Option Nat) :
+    ⦃⌜True⌝⦄ splitOnR x sep m
+    ⦃post⟨fun r => ⌜r = splitOn x sep m ∧ 0 < r.length ∧ ∀ p ∈ r, ∀ c ∈ p, c ∈ x⌝, fun _ => ⌜True⌝⟩⦄ :=
+  pc_triple (fun r h => by
+    unfold splitOnR at h
+    split at h
+    · cases h
+    · cases h
+      exact ⟨rfl, splitOn_length_pos x sep m, fun p hp => mem_splitOn hp⟩)
+
+theorem rsplitOnR_pc (x sep : Str) (m : Option Nat) :
+    ⦃⌜True⌝⦄ rsplitOnR x sep m
+    ⦃post⟨fun r => ⌜r = rsplitOn x sep m ∧ 0 < r.length ∧ ∀ p ∈ r, ∀ c ∈ p, c ∈ x⌝, fun _ => ⌜True⌝⟩⦄ :=
+  pc_triple (fun r h => by
+    unfold rsplitOnR at h
+    split at h
+    · cases h
+    · cases h
+      exact ⟨rfl, rsplitOn_length_pos x sep m, fun p hp => mem_rsplitOn hp⟩)
+
+theorem groupNamedR_pc (m : Re.Match) (name : Str) :
+    ⦃⌜True⌝⦄ m.groupNamedR name ⦃post⟨fun t => ⌜m.groupNamedR name = .ok t⌝, fun _ => ⌜True⌝⟩⦄ :=
+  pc_triple (fun _ h => h)
+
+theorem groupR_pc (m : Re.Match) (i : Nat) :
+    ⦃⌜True⌝⦄ m.groupR i ⦃post⟨fun t => ⌜m.groupR i = .ok t⌝, fun _ => ⌜True⌝⟩⦄ :=
+  pc_triple (fun _ h => h)
+
+end Py
+
+namespace Py
+
+/-! ## ASCII-ness of accepted strings (C15) -/
+
+theorem allIn_isAscii_of_digits {s : Str} (h : AllIn isAsciiDigit s) : AllIn isAscii s :=
+  h.of_imp (fun _ hc => isAscii_of_digit hc)
+
+theorem allIn_isAscii_of_B {s : Str} (h : isDigitsB s = true) : AllIn isAscii s :=
+  allIn_isAscii_of_digits ((isDigitsB_iff s).mp h).2
+
+theorem allIn_isAscii_of_isasciiS {s : Str} (h : isasciiS s = true) : AllIn isAscii s := by
+  intro c hc
+  have := List.all_eq_true.mp h c hc
+  simpa [isAscii] using this
+
+theorem allIn_of_alphabet {A s : Str} {P : Nat → Bool} (hs : s.all (fun c => A.contains c) = true)
+    (hA : A.all P = true) : AllIn P s :=
+  fun c hc => of_contains hA (List.all_eq_true.mp hs c hc)
+
+theorem allIn_isAscii_of_alnum {s : Str} (h : AllIn isAsciiAlnum s) : AllIn isAscii s :=
+  h.of_imp (fun _ hc => isAscii_of_alnum hc)
 
 end Py
